@@ -149,7 +149,7 @@ def objs(struct, system, mom):
     return AR.struct_map(struct, lambda e: AR.obj_of(system, mom, e))
 
 
-def run_unary(F, system, mom, layouts, seed, extras_layouts=("ak-jagged", "ak-record", "ak-flat")):
+def run_unary(F, system, mom, layouts, seed, extras_layouts=("ak-jagged", "ak-record", "ak-flat", "ak-rawzip")):
     d = len(system) + 1
     for layout in layouts:
         rng = random.Random(hash((seed, system, mom, layout)) & 0xFFFFFFF)
@@ -189,6 +189,16 @@ def run_unary(F, system, mom, layouts, seed, extras_layouts=("ak-jagged", "ak-re
                         ok = fld in ak.fields(res) and ak.to_list(res[fld]) == ak.to_list(v[fld])
                         F.check("C18", f"extra-field-carried/{fld}/{tag}", ok, dict(fields=ak.fields(res)))
                 F.check("C18", f"structure-preserved/{tag}", _shape(res) == _shape(v), dict(got=_shape(res), expected=_shape(v)))
+                # every field of the result that is spelled like a coordinate holds the *result's* coordinate (no stale operand column)
+                from vector._methods import _repr_momentum_to_generic as _G
+                for fld in ak.fields(res):
+                    g = _G.get(fld, fld)
+                    if g in ("x", "y", "rho", "phi", "z", "theta", "eta", "t", "tau"):
+                        try:
+                            same = AR.close(ak.to_list(res[fld]), ak.to_list(getattr(res, g)), 0, 0)
+                        except Exception as e:
+                            same = False
+                        F.check("C18", f"coordinate-field-is-current/{fld}/{tag}", same, dict(fields=ak.fields(res)))
                 if isinstance(v, ak.Record):
                     F.check("C18", f"record-result-behaves-as-vector/{tag}", isinstance(res, ak.Record) and isinstance(res, vector.Vector), type(res).__name__)
             elif isinstance(res, np.ndarray) and isinstance(v, np.ndarray) and isinstance(res, vector.Vector):
@@ -235,7 +245,7 @@ RECORD_OPERATOR_OPS = {"v==v", "v!=v", "abs", "v**2", "v**3", "numpy.sqrt", "num
 
 
 PAIRINGS = [("np(3)", "np(3)"), ("ak-jagged", "ak-jagged"), ("np(3)", "object"), ("object", "np(3)"), ("ak-jagged", "object"), ("object", "ak-jagged"),
-            ("ak-flat", "np(3)"), ("np(3)", "ak-flat"), ("ak-record", "ak-record"), ("ak-record", "object"), ("ak-option", "ak-option"), ("np(2,2)", "np(2,2)"),
+            ("ak-flat", "np(3)"), ("np(3)", "ak-flat"), ("ak-record", "ak-record"), ("ak-rawzip", "ak-rawzip"), ("ak-record", "object"), ("ak-option", "ak-option"), ("np(2,2)", "np(2,2)"),
             ("ak-nested", "object")]
 
 
@@ -317,7 +327,7 @@ def lattice(tier, seed):
                     pairs += [(s2, a, b) for a, b in flav]
                 else:
                     pairs.append((s2,) + flav[k])
-        pairings = PAIRINGS if tier == "thorough" else PAIRINGS[:9]
+        pairings = PAIRINGS if tier == "thorough" else PAIRINGS[:10]
         if ak is None:
             pairings = [p for p in pairings if not any(x.startswith("ak") for x in p)]
         bjobs.append((s1, pairs, pairings, seed))
